@@ -3,6 +3,7 @@ CONSTANTS
   NSock = 1
   Tokens = {1, 2, 3, 4, 5}
   MaxTotal = 4
+  Cap = 2
   Variants = {"code", "persegment"}
 INVARIANT Conforms
 CHECK_DEADLOCK FALSE
